@@ -23,6 +23,10 @@ ASSUMPTIONS = [
     "spans_intercept) and on the design matrix columns / term labels, which are checked to agree",
     "C13 quantifies over `levels=` that are arrangements of the observed levels; a listed level "
     "that does not occur in the rows (D13) is compared with the model only (it belongs to C06)",
+    "explicit level orders are handed over as list and as tuple (the documented types: identical "
+    "expectation, model and specification) and as numpy array / pandas Index: for the last two a "
+    "refusal is accepted and counted (the unchanged library refuses them: ValueError / "
+    "AttributeError from list operations), an evaluated factor is judged like the list form",
     "prediction path: the rows evaluate_new_data returns are judged by Spec.C13.rowsFollowLevels "
     "against the levels and contrast matrix the factor remembered (which the training-time "
     "specification has judged); a refusal on a column in which every level occurs is a failure, a "
@@ -78,6 +82,41 @@ def lit(v):
 
 def s_(v):
     return None if v is None else str(v)
+
+
+# the sequence type an explicit `levels` argument is passed in.  "list" and "tuple" are the documented
+# types (same expectation); "array" (numpy) and "index" (pandas) are further sequences a caller may
+# hold the levels in: the library may refuse them, but when it evaluates, the given order counts
+LEVEL_CONTAINERS = ("list", "tuple", "array", "index")
+DOCUMENTED_CONTAINERS = ("list", "tuple")
+AS_KEY = "__levels_as__"
+
+
+def as_container(values, kind):
+    import numpy as np
+    import pandas as pd
+    values = list(values)
+    if kind == "tuple":
+        return tuple(values)
+    if kind == "array":
+        return np.array(values)
+    if kind == "index":
+        return pd.Index(values)
+    return values
+
+
+def namespace(env):
+    """the extra_namespace of a case: level lists (JSON-friendly in the case) turned into the
+    sequence type the spelling asks for"""
+    kinds = env.get(AS_KEY, {})
+    return {k: as_container(v, kinds.get(k, "list")) for k, v in env.items() if k != AS_KEY}
+
+
+def levels_container(sp):
+    """sequence type of the explicit level orders of a spelling ("list" when it has none)"""
+    if all(sp.get(k) is None for k in ("levels", "l1", "l2")):
+        return "list"
+    return sp.get("levels_as", "list")
 
 
 def sl_(vs):
@@ -195,6 +234,8 @@ def spelling_text(sp, var, env, tag="lv"):
             return None
         name = "%s_%s%s" % (tag, var, suffix)
         env[name] = list(sp[key])
+        if sp.get("levels_as", "list") != "list":
+            env.setdefault(AS_KEY, {})[name] = sp["levels_as"]
         return name
 
     k = sp["kind"]
@@ -272,7 +313,7 @@ def impl_design(case):
     df = pd.DataFrame({"y": [float(i % 3) for i in range(n)], "g": make_column(col)})
     formula, env = design_formula(case)
     try:
-        dm = _quiet(lambda: design_matrices(formula, df, extra_namespace=env))
+        dm = _quiet(lambda: design_matrices(formula, df, extra_namespace=namespace(env)))
     except Exception as e:  # noqa
         return {"err": type(e).__name__}
     try:
@@ -428,6 +469,10 @@ def gen_spelling(rng, levels, typ):
         sp["c1"] = gen_contrast_arg(rng, levels, allow_bad=False)
         sp["l1"] = gen_levels_arg(rng, levels, 0.4, allow_bad=False)
         sp["arg"] = arg
+    # the sequence type the explicit level orders are passed in
+    cont = rng.choice(["list", "list", "tuple", "tuple", "tuple", "array", "index"])
+    if cont != "list" and any(sp.get(k) is not None for k in ("levels", "l1", "l2")):
+        sp["levels_as"] = cont
     return sp
 
 
@@ -444,12 +489,23 @@ def gen_design_cases(tier, seed):
             for intercept in (True, False):
                 cases.append({"kind": "design", "col": col, "intercept": intercept,
                               "spelling": {"kind": "c", "contrast": None, "levels": list(perm)}})
+            # the same arrangement handed over as a tuple (every arrangement), and as a numpy array /
+            # pandas Index (alternating)
+            cases.append({"kind": "design", "col": col, "intercept": j % 2 == 1,
+                          "spelling": {"kind": "c", "contrast": None, "levels": list(perm),
+                                       "levels_as": "tuple", "kw": j % 4 < 2}})
             if n <= 4 or (j + seed) % 5 == 0 or tier != "quick":
                 which = j % 3
                 sp = [{"kind": "c", "contrast": {"cls": "Sum"}, "levels": list(perm), "kw": True},
                       {"kind": "s", "arg": None, "levels": list(perm)},
                       {"kind": "t", "arg": None, "levels": list(perm), "kw": True}][which]
                 cases.append({"kind": "design", "col": col, "intercept": j % 2 == 0, "spelling": sp})
+                cont = ("tuple", "array", "tuple", "index")[(j // 3) % 4]
+                sp2 = [{"kind": "t", "arg": perm[-1], "levels": list(perm)},
+                       {"kind": "c", "contrast": {"cls": "Sum"}, "levels": list(perm)},
+                       {"kind": "s", "arg": None, "levels": list(perm), "kw": True}][which]
+                cases.append({"kind": "design", "col": col, "intercept": (j // 2) % 2 == 0,
+                              "spelling": dict(sp2, levels_as=cont)})
     # integer levels: all arrangements of up to four
     for n in range(1, 5):
         base = [3, 1, 7, 5][:n]
@@ -458,6 +514,12 @@ def gen_design_cases(tier, seed):
             cases.append({"kind": "design", "col": col, "intercept": j % 2 == 0,
                           "spelling": {"kind": "c", "contrast": None if j % 2 else {"cls": "Sum"},
                                        "levels": list(perm)}})
+            for cont in ("tuple", ("array", "index")[j % 2]):
+                sp = [{"kind": "c", "contrast": None, "levels": list(perm)},
+                      {"kind": "s", "arg": None, "levels": list(perm), "kw": True},
+                      {"kind": "t", "arg": None, "levels": list(perm)}][(j + len(cont)) % 3]
+                cases.append({"kind": "design", "col": col, "intercept": (j // 2) % 2 == 0,
+                              "spelling": dict(sp, levels_as=cont)})
     # random frames / spellings
     rng = rng_for(seed, "c13", "design")
     for _ in range(1500 if tier == "quick" else 12000):
@@ -500,6 +562,11 @@ def alias_groups(tier, seed):
                    {"kind": "c", "contrast": {"cls": "Treatment"}, "levels": lv, "kw": True}]
             if typ != "int" and lv is None:
                 sps.append({"kind": "plain"})
+        if lv is not None:
+            # the same level order handed over as a tuple: the same factor
+            twin = rng.choice([sp for sp in sps if sp.get("levels") is not None or sp.get("l1") is not None
+                               or sp.get("l2") is not None])
+            sps.append(dict(twin, levels_as="tuple"))
         groups.append([{"kind": "design", "col": col, "intercept": intercept, "spelling": sp,
                         "alias_group": len(groups)} for sp in sps])
     return groups
@@ -631,7 +698,9 @@ def gen_coding(rng, name, fac, base):
                {"kind": "c", "contrast": {"inst": "Treatment", "arg": ref}, "levels": None},
                {"kind": "c", "contrast": {"inst": "Sum", "arg": ref}, "levels": lv},
                {"kind": "c", "contrast": None, "levels": lv},
-               {"kind": "t", "arg": ref, "levels": lv, "kw": True}]
+               {"kind": "t", "arg": ref, "levels": lv, "kw": True},
+               {"kind": "c", "contrast": None, "levels": lv, "levels_as": "tuple"},
+               {"kind": "s", "arg": None, "levels": lv, "levels_as": "tuple"}]
     if fac["type"] != "int":
         options.append({"kind": "plain"})
     return rng.choice(options)
@@ -665,7 +734,7 @@ def impl_interchange(case):
     for key in ("base", "variant"):
         formula, env = case[key]["formula"], case[key]["env"]
         try:
-            dm = _quiet(lambda: design_matrices(formula, df, extra_namespace=env))
+            dm = _quiet(lambda: design_matrices(formula, df, extra_namespace=namespace(env)))
             m = _int_matrix(np.asarray(dm.common.design_matrix))
             if m is None:
                 out[key] = {"err": "NonIntegralMatrix"}
@@ -707,7 +776,8 @@ def explore(tier, seed, res=None, replay=None):
     res = res or Result()
     res.rule = ("code: Treatment/Sum(arg).code_with/without_intercept(levels) for every n and every "
                 "arg; design: one factor in one spelling (g, C, T, S, nested C, T/S over C; contrast "
-                "none/class/instance; levels none/arrangement/defective; string, integer, Categorical, "
+                "none/class/instance; levels none/arrangement/defective, passed as list / tuple / numpy array / "
+                "pandas Index; string, integer, Categorical, "
                 "ordered Categorical columns) through design_matrices, then the prediction path: "
                 "common.evaluate_new_data on the training column, on a longer rearrangement containing "
                 "every level and on a column lacking one level, each row judged to be the contrast row "
@@ -782,6 +852,13 @@ def explore(tier, seed, res=None, replay=None):
         res.count("design:scope:" + ("in" if an["in_scope"] else "out"))
         if not an["in_scope"]:
             res.count("design:out_of_scope(D13 class, model only):" + ("ok" if i_ok else io_["err"]))
+        cont = levels_container(c["spelling"])
+        res.count("design:levels_as:" + cont)
+        if cont not in DOCUMENTED_CONTAINERS and not i_ok:
+            # levels handed over in a sequence type other than the documented "list or tuple": the
+            # library may refuse it; only an evaluated factor is judged (it must honour the order)
+            res.count("design:levels_as:%s:refused:%s" % (cont, io_["err"]))
+            continue
         same = (m_ok == i_ok) and (not m_ok or all(model["ok"][k] == io_[k] for k in
                                                    ("levels", "matrix", "labels", "value", "spans")))
         if not same:
